@@ -216,7 +216,10 @@ func ExplainGpos(fontInfo *sfnt.Font) []string {
 
 			case *gtab.Gpos2_2:
 				checkType(2)
-				ee.w.WriteString("\n\t")
+				if i == 0 {
+					// after " ||" a new line has already been started
+					ee.w.WriteString("\n\t")
+				}
 				ee.w.WriteRune('/')
 				ee.writeGlyphList(l.Cov.Glyphs())
 				ee.w.WriteRune('/')
@@ -271,9 +274,15 @@ func ExplainGpos(fontInfo *sfnt.Font) []string {
 
 			case *gtab.Gpos4_1:
 				checkType(4)
+				// after " ||" a new line has already been started
+				sep := "\n\t"
+				if i > 0 {
+					sep = ""
+				}
 				markGlyphs := l.MarkCov.Glyphs()
 				for i, gid := range markGlyphs {
-					ee.w.WriteString("\n\tmark ")
+					ee.w.WriteString(sep + "mark ")
+					sep = "\n\t"
 					ee.writeGlyph(gid)
 					ee.w.WriteRune(':')
 					rec := l.MarkArray[i]
@@ -283,7 +292,8 @@ func ExplainGpos(fontInfo *sfnt.Font) []string {
 
 				baseGlyphs := l.BaseCov.Glyphs()
 				for i, gid := range baseGlyphs {
-					ee.w.WriteString("\n\tbase ")
+					ee.w.WriteString(sep + "base ")
+					sep = "\n\t"
 					ee.writeGlyph(gid)
 					ee.w.WriteRune(':')
 					anchors := l.BaseArray[i]
